@@ -106,7 +106,7 @@ Proof.
 Qed.
 Theorem decodes_flat (m : mode) b x oy :
   (m = dev_mode \/ m = release_mode) ->
-  x < 256 -> (forall y, oy = Some y -> (-128 <= y < 128)%Z) ->
+  x < 256 -> (forall y, oy = Some y -> (-32 <= y < 32)%Z) ->
   let v := VSeq [VBool b; VInt (Z.of_N x); VOpt (option_map VInt oy)] in
   exists bs, pwrite_vec m flat_ty v = Ok bs /\
              pb_decode flat_schema bs = Some (flat_expected b x oy) /\
